@@ -19,8 +19,27 @@ def setup(tier):
         P = rxmc.load_patterns()
         A = rxmc.Alphabet(P)
         L, nsk = rxmc.enumerate_language(A, P['PAT_EVENT_CODE'], rich=(tier == 'thorough'), pairs=True, triples=(tier == 'thorough'))
-        _G.update(P=P, A=A, L=L, nsk=nsk)
+        _G.update(P=P, A=A, L=L, nsk=nsk, conf=confusables())
     return _G
+
+
+def confusables(per_image=5):
+    """non-ASCII characters that a Unicode-aware transformation (NFKC/NFKD folding, upper, lower, casefold) turns into one to three ASCII
+    characters: {ascii image: [characters]} - the near misses a normaliser that folds before it matches would let through"""
+    import unicodedata
+    fs = [lambda c: unicodedata.normalize('NFKC', c), lambda c: unicodedata.normalize('NFKD', c), str.upper, str.lower, str.casefold]
+    out = {}
+    for cp in range(0x80, 0x110000):
+        ch = chr(cp)
+        if unicodedata.category(ch) in ('Cs', 'Cn', 'Co') or ch.isspace():
+            continue
+        for f in fs:
+            im = f(ch)
+            if im != ch and 0 < len(im) <= 3 and im.isascii() and im.strip() == im:
+                L = out.setdefault(im, [])
+                if ch not in L and len(L) < per_image:
+                    L.append(ch)
+    return out
 
 
 def fam(P, s):
@@ -150,6 +169,15 @@ def near_work(chunk):
                 if r != c[i]:
                     cand.add(c[:i] + r + c[i + 1:])
         cand.add(c + c)
+        # look-alikes: a stretch of the code replaced by a non-ASCII character that folds into it
+        cl = c.lower()
+        for im, chars in G['conf'].items():
+            iml = im.lower()
+            j = cl.find(iml)
+            while j >= 0:
+                for ch in chars:
+                    cand.add(c[:j] + ch + c[j + len(im):])
+                j = cl.find(iml, j + 1)
         # call order: the valid code is normalised first, its near misses afterwards (a refusal must not depend on what was normalised
         # before); 'twins' - near misses that differ from the code only in letter case or blanks - are tried after every code they stem from
         try:
